@@ -223,7 +223,12 @@ func constraintOnEdge(b *ssa.BasicBlock, si int, is tracker) iset {
 	if b.Succs[0] == b.Succs[1] {
 		return full()
 	}
-	c, ok := normFact(EdgeFact{Cond: iff.Cond, Taken: si == 0})
+	return condConstraint(iff.Cond, si == 0, is)
+}
+
+// condConstraint: what `cond == truth` says about the tracked value.
+func condConstraint(cond ssa.Value, truth bool, is tracker) iset {
+	c, ok := normFact(EdgeFact{Cond: cond, Taken: truth})
 	if !ok {
 		return full()
 	}
@@ -238,6 +243,56 @@ func constraintOnEdge(b *ssa.BasicBlock, si int, is tracker) iset {
 		}
 	}
 	return full()
+}
+
+// edgeOut: the values the tracked variable can have on the edge b -> b.Succs[si]. When the branch of
+// b tests a boolean phi defined in b itself (`a || b` evaluated as a value, as in `switch { case a ||
+// b: }`), the outcome tells which predecessors control can have come from and what the comparison
+// carried by the phi says, so the set is assembled per predecessor instead of from the merged in[b].
+func edgeOut(in map[*ssa.BasicBlock]iset, b *ssa.BasicBlock, si int, is tracker) iset {
+	plain := in[b].intersect(constraintOnEdge(b, si, is))
+	if len(b.Instrs) == 0 || len(b.Succs) != 2 || b.Succs[0] == b.Succs[1] {
+		return plain
+	}
+	iff, ok := b.Instrs[len(b.Instrs)-1].(*ssa.If)
+	if !ok {
+		return plain
+	}
+	c, neg := iff.Cond, false
+	for {
+		if u, ok := c.(*ssa.UnOp); ok && u.Op == token.NOT {
+			c, neg = u.X, !neg
+			continue
+		}
+		break
+	}
+	phi, ok := c.(*ssa.Phi)
+	if !ok || phi.Block() != b || basicKind(phi.Type()) != types.Bool {
+		return plain
+	}
+	want := (si == 0) != neg
+	var u iset
+	for i, e := range phi.Edges {
+		pred := b.Preds[i]
+		ps, seen := in[pred]
+		if !seen {
+			continue // not reached (yet)
+		}
+		for k, succ := range pred.Succs {
+			if succ == b {
+				ps = ps.intersect(constraintOnEdge(pred, k, is))
+			}
+		}
+		if cb, isC := constBool(e); isC {
+			if cb != want {
+				continue
+			}
+		} else {
+			ps = ps.intersect(condConstraint(e, want, is))
+		}
+		u = u.union(ps)
+	}
+	return u.intersect(in[b])
 }
 
 // affineOf strips `x + c` / `x - c` (constant c): e = core + off. (Used so that a condition written
@@ -282,6 +337,7 @@ func overflows(k, off int64) bool {
 // valueSets computes, for every block of fn, the set of values the tracked value may have when
 // control is at the block's entry (⊆ its type range). Unreachable blocks get ∅.
 func valueSets(fn *ssa.Function, v ssa.Value, is tracker) map[*ssa.BasicBlock]iset {
+	single := is == nil
 	if is == nil {
 		is = trackValue(v)
 	}
@@ -290,17 +346,38 @@ func valueSets(fn *ssa.Function, v ssa.Value, is tracker) map[*ssa.BasicBlock]is
 	if len(fn.Blocks) == 0 {
 		return in
 	}
-	in[fn.Blocks[0]] = tr
-	work := []*ssa.BasicBlock{fn.Blocks[0]}
-	for len(work) > 0 {
-		b := work[len(work)-1]
-		work = work[:len(work)-1]
-		for si, s := range b.Succs {
-			out := in[b].intersect(constraintOnEdge(b, si, is))
-			nw := in[s].union(out)
-			if !nw.equal(in[s]) {
-				in[s] = nw
-				work = append(work, s)
+	// a value computed inside the function says nothing before its definition: control that has not
+	// passed the defining block carries no values of it (matters for loops: the entry edge of a loop
+	// whose body defines v must not contribute "anything" to the sets after the loop)
+	var defBlock *ssa.BasicBlock
+	if single {
+		if ins, ok := strip(v, false).(ssa.Instruction); ok && ins.Block() != nil && ins.Block().Parent() == fn {
+			defBlock = ins.Block()
+		}
+	}
+	if defBlock == nil || defBlock == fn.Blocks[0] {
+		in[fn.Blocks[0]] = tr
+	} else {
+		in[fn.Blocks[0]] = iset{}
+	}
+	for changed := true; changed; {
+		changed = false
+		for _, b := range fn.Blocks {
+			if _, reached := in[b]; !reached {
+				continue
+			}
+			if b == defBlock && !in[b].equal(tr) {
+				in[b] = tr
+				changed = true
+			}
+			for si, s := range b.Succs {
+				out := edgeOut(in, b, si, is)
+				old, had := in[s]
+				nw := old.union(out)
+				if !had || !nw.equal(old) {
+					in[s] = nw
+					changed = true
+				}
 			}
 		}
 	}
